@@ -1109,6 +1109,12 @@ func (c06) Exec(line string) (string, []Fail) {
 	if strings.HasPrefix(line, "big ") {
 		return c06Big(line)
 	}
+	if strings.HasPrefix(line, "glue ") {
+		return c06Glue(line)
+	}
+	if strings.HasPrefix(line, "gattr ") {
+		return c06Gattr(line)
+	}
 	c, ok := c06Parse(line)
 	if !ok {
 		caseTrivial = true
@@ -1513,6 +1519,10 @@ func c06Subset(rng *rand.Rand, pool []string, max int) []string {
 }
 
 func (c06) Gen(rng *rand.Rand, tier string, emit func(string)) {
+	if os.Getenv("C06_ONLY") == "glue" { // sweeps of the fifth-pass cases alone
+		c06GenGlue(rng, tier, emit)
+		return
+	}
 	// ---- corpus ---------------------------------------------------------------------------------
 	corpus := []string{
 		// empty input
@@ -1724,4 +1734,6 @@ func (c06) Gen(rng *rand.Rand, tier string, emit func(string)) {
 			emit(cc.line())
 		}
 	}
+	// fifth pass: the command-line glue (drawn last, so that the cases above are the same as before)
+	c06GenGlue(rng, tier, emit)
 }
